@@ -174,7 +174,7 @@ class HashClient:
             for server in candidates:
                 logger.debug("bringing server back into rotation %s", server)
                 self.add_server(server)
-                del self._dead_clients[server]
+                self._dead_clients.pop(server, None)
             self._last_dead_check_time = current_time
 
     def _get_client(self, key):
@@ -213,7 +213,7 @@ class HashClient:
                         result = func(*args, **kwargs)
                         # we were successful, lets remove it from the failed
                         # clients
-                        self._failed_clients.pop(client.server)
+                        self._failed_clients.pop(client.server, None)
                         return result
                     return default_val
                 else:
@@ -266,7 +266,7 @@ class HashClient:
                             raise err
                         # we were successful, lets remove it from the failed
                         # clients
-                        self._failed_clients.pop(client.server)
+                        self._failed_clients.pop(client.server, None)
                         return failed
                     return values.keys()
                 else:
